@@ -1,32 +1,30 @@
 #!/bin/bash
 # seedtest_ovl.sh <patch.diff> <ID> [<ID> ...]
-# Like seedtest.sh, but /repo is NOT touched: the patched files are placed in a scratch directory and
-# substituted at build time through a go build -overlay; the checks run from a scratch copy of /verif.
-# Safe to run in parallel and while other work builds from /repo. Not usable for C08 (its explorer
-# regenerates rewritten sources from /repo itself): use seedtest.sh for C08.
+# Like seedtest.sh, but /repo is NOT touched: the patch is applied to a scratch copy of the tree, the changed files
+# are substituted at build time through a go build -overlay (VCHECK_OVERLAY; for C08 the rewriter additionally reads
+# the scratch copy, VCHECK_SRC_V2), and the checks run from a scratch copy of /verif.
+# Safe to run in parallel and while other work builds from /repo.
 set -u
 PATCH="$(readlink -f "$1")"; shift
 W=/work/seed/$(basename "$(dirname "$PATCH")")-$$
-rm -rf "$W"; mkdir -p "$W/src"
+rm -rf "$W"; mkdir -p "$W"
 trap 'rm -rf "$W"' EXIT
-for f in $(git -C /repo apply --numstat "$PATCH" | awk '{print $3}'); do
-  if [ -f "/repo/$f" ]; then mkdir -p "$W/src/$(dirname "$f")"; cp "/repo/$f" "$W/src/$f"; fi
-done
-(cd "$W/src" && patch -p1 -s < "$PATCH") || { echo "seedtest_ovl: patch does not apply" >&2; exit 2; }
-python3 - "$W" <<'PY'
-import json,os,sys
-W=sys.argv[1]
+rsync -a --exclude .git /repo/ "$W/tree/"
+(cd "$W/tree" && patch -p1 -s < "$PATCH") || { echo "seedtest_ovl: patch does not apply" >&2; exit 2; }
+python3 - "$W" "$PATCH" <<'PY'
+import json,os,sys,subprocess
+W,P=sys.argv[1],sys.argv[2]
 o=json.load(open('/verif/engine/overlay.json'))
-for d,_,fs in os.walk(W+'/src'):
-    for f in fs:
-        p=os.path.join(d,f); rel=os.path.relpath(p,W+'/src')
-        if rel.endswith('.orig') or rel.endswith('.rej'): continue
-        o['Replace']['/repo/'+rel]=p
+files=[l.split('\t')[2] for l in subprocess.run(['git','-C','/repo','apply','--numstat',P],capture_output=True,text=True).stdout.splitlines()]
+for f in files:
+    p=os.path.join(W,'tree',f)
+    if os.path.exists(p): o['Replace']['/repo/'+f]=p
+    else: o['Replace']['/repo/'+f]=''   # file deleted by the patch
 json.dump(o,open(W+'/overlay.json','w'),indent=1)
 PY
 rsync -a --exclude bin --exclude .git --exclude replays --exclude seeded --exclude notes /verif/ "$W/verif/"
 for id in "$@"; do
-  out=$(VERIF_DIR="$W/verif" VCHECK_OVERLAY="$W/overlay.json" "$W/verif/vcheck" "$id" --tier "${SEED_TIER:-quick}" 2>&1); rc=$?
+  out=$(VERIF_DIR="$W/verif" VCHECK_OVERLAY="$W/overlay.json" VCHECK_SRC_V2="$W/tree/v2" "$W/verif/vcheck" "$id" --tier "${SEED_TIER:-quick}" 2>&1); rc=$?
   sigs=$(echo "$out" | grep -E "^\s+signature=" | sed 's/^\s*signature=//' | sort -u | head -6 | tr '\n' ' ')
   case $rc in
     1) echo "$id CAUGHT rc=1 $sigs" ;;
